@@ -2,6 +2,7 @@ package main
 
 import (
 	"fmt"
+	"strings"
 
 	"golang.org/x/tools/go/ssa"
 )
@@ -21,6 +22,7 @@ func checkC06(w *World, r *Report) {
 	r.Undecided = []string{"'pays exactly the remainder' is value identity and is decided by C05.pair; no numeric clause remains"}
 	r.Rule("C06.table", "P7", "CalculateWithdrawable(now, pool): now before LockEnd => the result is zero; now equal to or after LockEnd => the result is pool.GetCurrentlyLocked()", 3)
 	r.Rule("C06.sameoracle", "P4,P6", "the pool query and the withdraw operation obtain the withdrawable amount from the same function, with ctx.BlockTime() and the stored pool as arguments", 2)
+	r.Rule("C06.everypool", "P5", "a withdraw-all visits every pool of the owner: every iteration of the loop over the stored pools calls the time-lock oracle and the loop has no early exit", 2)
 	r.Rule("C06.outflows", "P4,P5", "module->account transfers of cfevesting are exactly the withdraw transfer (amount: accumulator of CalculateWithdrawable results) and the new-vesting-account transfer, reached only after the recipient was created as a fresh continuous vesting account on the same path", 2)
 	if !ro.checkFloors(r) {
 		return
@@ -115,6 +117,30 @@ func checkC06(w *World, r *Report) {
 				o := w.Tracer().Origins(fs.Store.Val)
 				r.Check(o.HasCall("keeper.CalculateWithdrawable") || o.HasCall("VestingPool.GetCurrentlyLocked"), "C06.sameoracle", "VestingPools: response.Withdrawable <- oracle", w.Pos(fs.Store.Pos()), "sourced from CalculateWithdrawable", "the reported withdrawable amount is not the oracle's result: "+o.String())
 			}
+		}
+	}
+
+	// ---------- C06.everypool ----------
+	if wd := w.Func("x/cfevesting/keeper.Keeper.WithdrawAllAvailable"); wd != nil {
+		var pl *rangeLoop
+		for _, l := range rangeLoops(wd) {
+			l := l
+			if l.Over != nil && loadOfField(l.Over, "VestingPools", nil) {
+				pl = &l
+			}
+		}
+		if pl == nil {
+			r.Unk("C06.everypool", "withdraw loop over the owner's pools", w.Pos(wd.Pos()), "loop not found")
+		} else {
+			every := loopBodyMustPass(*pl, func(b *ssa.BasicBlock) bool {
+				return blockHasCall(b, func(c *ssa.Call) bool { return strings.HasSuffix(callName(c.Common()), "keeper.CalculateWithdrawable") })
+			})
+			ex := loopEarlyExit(*pl)
+			r.Check(every && ex == nil, "C06.everypool", "withdraw-all evaluates every pool of the owner", w.Pos(pl.Body.Instrs[0].Pos()),
+				"every iteration calls the time-lock oracle and the loop over all pools is never left early", "some pools are skipped (an iteration path avoids the oracle, or the loop is left early): a matured pool would not be paid while the query reports it withdrawable")
+			// the pools ranged over are the owner's stored pools
+			o := w.Tracer().Origins(pl.Over)
+			r.Check(o.HasCall("GetAccountVestingPools") || o.HasCall("MustUnmarshal"), "C06.everypool", "the pools are the owner's stored pools", w.Pos(wd.Pos()), "read with GetAccountVestingPools", "the withdraw loop does not range over the stored pools")
 		}
 	}
 
